@@ -16,12 +16,15 @@ PID = "C14"
 
 META = dict(
     level="other",
-    stubs=["mkusetcoordinfo: linalg.norm -> non-negative root symbol with its defining square; np.cross -> written out on object arrays; .astype(float) on symbolic values -> identity (AST hook)",
+    stubs=["getcoordinates (cylindrical / spherical): math.atan2(a, b) -> an angle symbol t with side conditions a = rho sin t, b = rho cos t, rho > 0, sin^2 + cos^2 = 1 (sin t, cos t, rho symbols); "
+           "math.sin / math.cos of that angle -> those symbols; math.hypot / linalg.norm -> non-negative root symbols",
+           "mkusetcoordinfo: linalg.norm -> non-negative root symbol with its defining square; np.cross -> written out on object arrays; .astype(float) on symbolic values -> identity (AST hook)",
            "np.zeros in rbgeom -> object array", "mkusetcoordinfo in getcoordinates -> returns the symbolic 5x3 coordinate-system record (origin + orthonormal transform) of the harness"],
-    outside=["cylindrical and spherical branches (atan2, hypot, sin, cos of symbolic values)", "mkusetcoordinfo: y and x axes of the A-B-C construction (nested root symbols: unknown from nlsat at 15 s), cylindrical / spherical reference systems, lookup by id in a USET table; build_coords / addgrid chains (pandas)",
+    outside=["forward maps into cylindrical / spherical systems (_get_loc_a_basic with sin/cos of symbolic angles) and hence the curvilinear round trip; values of the trigonometric functions", "mkusetcoordinfo: y and x axes of the A-B-C construction (nested root symbols: unknown from nlsat at 15 s), cylindrical / spherical reference systems, lookup by id in a USET table; build_coords / addgrid chains (pandas)",
              "rbgeom_uset (DataFrame), rbcoords, formrbe3 (least squares / LU), replace_basic_cs (raises on this NumPy: its two tests are baseline failures)"],
-    assumptions=["grid coordinates, reference points, rigid motion parameters in [-10, 10]; rectangular transform T from a list of five exact rational rotation matrices (the fully symbolic orthonormal T was inconclusive in nlsat), origin and point symbolic"],
-    reach_required=["coordinfo", "coordinfo-identity-ref", "rbgeom-shift", "rbgeom-noshift", "rbgeom-partial-zero-ref", "rbgeom-gridref", "rbmove", "rect-roundtrip"],
+    assumptions=["curvilinear inverse maps: identity transform at the origin, point in [-10, 10]^3 at least 0.01 off the polar axis",
+                 "grid coordinates, reference points, rigid motion parameters in [-10, 10]; rectangular transform T from a list of five exact rational rotation matrices (the fully symbolic orthonormal T was inconclusive in nlsat), origin and point symbolic"],
+    reach_required=["cylindrical", "spherical", "coordinfo", "coordinfo-identity-ref", "rbgeom-shift", "rbgeom-noshift", "rbgeom-partial-zero-ref", "rbgeom-gridref", "rbmove", "rect-roundtrip"],
     trusted_base=["z3 5.1 (nlsat)"],
 )
 
@@ -304,13 +307,148 @@ def replay_coordinfo(p):
     return False, "mkusetcoordinfo fine on the real code"
 
 
-REPLAY = {"rbgeom": replay_rbgeom, "rect": replay_rect, "coordinfo": replay_coordinfo}
+# ---------------------------------------------------------------------------
+# getcoordinates, cylindrical and spherical systems: the trigonometric functions are uninterpreted; what atan2 / sin /
+# cos / hypot mean for the terms that occur is given as polynomial side conditions (sin^2 + cos^2 = 1, x = rho cos, y = rho sin)
+
+ATAN2 = z3.Function("atan2", z3.RealSort(), z3.RealSort(), z3.RealSort())
+
+
+class _Math:
+    """stands for the module `math` inside getcoordinates"""
+    pi = __import__("math").pi
+
+    def __init__(self, eng):
+        self.eng = eng
+        self.angles = {}       # id of the angle symbol -> (sin symbol, cos symbol, rho symbol)
+        self.calls = []        # (angle symbol, a, b) of every atan2(a, b)
+
+    def atan2(self, a, b):
+        a_, b_ = S.lift(a), S.lift(b)
+        eng = self.eng
+        t = eng.fresh("angle")          # the value of atan2(a, b): an angle symbol (the solver query stays free of uninterpreted functions)
+        self.calls.append((t, a_, b_))
+        sn, cs, rho = eng.fresh("sin"), eng.fresh("cos"), eng.fresh("rho")
+        # for (b, a) != (0, 0): b = rho cos(t), a = rho sin(t), rho > 0, sin^2 + cos^2 = 1
+        eng.assume(z3.And(rho > 0, sn * sn + cs * cs == 1, a_ == rho * sn, b_ == rho * cs))
+        self.angles[t.get_id()] = (sn, cs, rho)
+        return S.SymR(t)
+
+    def _of(self, x):
+        return self.angles.get(z3.simplify(S.lift(x)).get_id()) or self.angles.get(S.lift(x).get_id())
+
+    def sin(self, x):
+        a = self._of(x)
+        if a is None:
+            raise E.Inconclusive("sin of a term that is not an atan2 result")
+        return S.SymR(a[0])
+
+    def cos(self, x):
+        a = self._of(x)
+        if a is None:
+            raise E.Inconclusive("cos of a term that is not an atan2 result")
+        return S.SymR(a[1])
+
+    def hypot(self, a, b):
+        eng = self.eng
+        r = eng.fresh("hyp")
+        eng.assume(z3.And(r >= 0, r * r == S.lift(a) * S.lift(a) + S.lift(b) * S.lift(b)))
+        return S.SymR(r)
+
+
+def curvi_fn(ctype):
+    def fn(eng):
+        S.set_engine(eng)
+        from vsym import astload
+        n2p = _n2p()
+        mth = _Math(eng)
+        g = dict(n2p.getcoordinates.__globals__)
+        x, y, zc = z3.Real("x"), z3.Real("y"), z3.Real("z")
+        for v in (x, y, zc):
+            eng.assume(z3.And(v >= -10, v <= 10))
+        # off the polar axis (the angle about it is undefined there)
+        eng.assume(x * x + y * y >= z3.RealVal("0.0001"))
+        ci = np.empty((5, 3), dtype=object)
+        ci[0] = [np.float64(7), np.float64(ctype), np.float64(0)]
+        ci[1] = [0.0, 0.0, 0.0]
+        ci[2:] = [[1.0, 0.0, 0.0], [0.0, 1.0, 0.0], [0.0, 0.0, 1.0]]
+        g.update(math=mth, linalg=_Linalg, mkusetcoordinfo=lambda cs, uset, coordref: ci, np=NPC())
+        f = astload.load(n2p.getcoordinates, hooks=("astype",), globs=g)
+        info = dict(kernel="curvi", ctype=ctype)
+        try:
+            out = f(None, np.array([[S.SymR(x), S.SymR(y), S.SymR(zc)]], dtype=object), 7)
+        except E.Inconclusive:
+            raise
+        except ZeroDivisionError as ex:
+            return [E.Obl("getcoordinates divides by zero: %r" % (ex,), False, info=info)]
+        except Exception as ex:
+            import traceback
+            return [E.Obl("getcoordinates raises %r (%s)" % (ex, traceback.format_exc()[-300:]), False, info=info)]
+        eng.tag("cylindrical" if ctype == 2 else "spherical")
+        out = np.ravel(out)
+        obls = [E.Obl("getcoordinates: three coordinates", len(out) == 3, info=info)]
+        if len(out) != 3:
+            return obls
+        deg = lambda t: t * 180 / z3.RealVal(Fraction(_Math.pi))
+        R, a1, a2 = [S.lift(v) for v in out]
+        calls = mth.calls
+        if ctype == 2:
+            obls.append(E.Obl("cylindrical: R is the distance from the axis", z3.And(R >= 0, R * R == x * x + y * y), info=info))
+            ok = len(calls) == 1
+            obls.append(E.Obl("cylindrical: one atan2", ok, info=info))
+            if ok:
+                obls.append(E.Obl("cylindrical: theta = atan2(y, x) in degrees", z3.And(a1 == deg(calls[0][0]), calls[0][1] == y, calls[0][2] == x), info=info))
+            obls.append(E.Obl("cylindrical: z unchanged", a2 == zc, info=info))
+            return obls
+        obls.append(E.Obl("spherical: R is the distance from the origin", z3.And(R >= 0, R * R == x * x + y * y + zc * zc), info=info))
+        ok = len(calls) == 2
+        obls.append(E.Obl("spherical: two atan2", ok, info=info))
+        if not ok:
+            return obls
+        obls.append(E.Obl("spherical: phi = atan2(y, x) in degrees", z3.And(a2 == deg(calls[0][0]), calls[0][1] == y, calls[0][2] == x), info=info))
+        # theta = atan2(rho, z) with rho the distance from the polar axis, however the code gets at rho
+        sn, cs, rho = mth.angles[calls[0][0].get_id()]
+        obls.append(E.Obl("spherical: theta = atan2(distance from the polar axis, z) in degrees (the quotient y/sin(phi) or x/cos(phi) "
+                          "the code forms is that distance: its divisor is not zero)", z3.And(a1 == deg(calls[1][0]), calls[1][1] == rho, calls[1][2] == zc), info=info))
+        return obls
+    return fn
+
+
+def replay_curvi(p):
+    import math
+    n2p = _n2p()
+    mdl = p["model"]
+    gf = lambda k: float(Fraction(mdl.get(k, 0) or 0))
+    pts = [np.array([gf("x"), gf("y"), gf("z")])]
+    # the model fixes signs / zero pattern; the angles it names are also tried exactly on the axes
+    pts += [np.array([-2.0, 0.0, 1.0]), np.array([0.0, -3.0, 1.0]), np.array([0.0, 2.0, -1.0]), np.array([1.0, 1.0, 1.0])]
+    ci = np.vstack(([7, p["ctype"], 0], np.zeros(3), np.eye(3)))
+    msgs = []
+    for q in pts:
+        if q[0] == 0 and q[1] == 0:
+            continue
+        got = n2p.getcoordinates(None, q.reshape(1, 3), 7, {7: ci})
+        if p["ctype"] == 2:
+            want = [math.hypot(q[0], q[1]), math.degrees(math.atan2(q[1], q[0])), q[2]]
+        else:
+            want = [np.linalg.norm(q), math.degrees(math.atan2(math.hypot(q[0], q[1]), q[2])), math.degrees(math.atan2(q[1], q[0]))]
+        if not np.allclose(np.ravel(got), want, atol=1e-9):
+            msgs.append("getcoordinates(%s) in a %s system = %s, expected %s" % (q.tolist(), "cylindrical" if p["ctype"] == 2 else "spherical", np.ravel(got).tolist(), want))
+    if msgs:
+        return True, "; ".join(msgs[:2])
+    return False, "getcoordinates fine on the real code"
+
+
+REPLAY = {"curvi": replay_curvi, "rbgeom": replay_rbgeom, "rect": replay_rect, "coordinfo": replay_coordinfo}
 
 
 def job(kind, *args):
     eng = E.Engine(obl_timeout_ms=120000, tactic="qfnra-nlsat") if kind == "coordinfo" else E.Engine(obl_timeout_ms=120000)
     eng.obl_mode = "each"
-    fn = rbgeom_fn(*args) if kind == "rbgeom" else (coordinfo_fn(*args) if kind == "coordinfo" else rect_fn(*args))
+    if kind == "curvi":
+        eng = E.Engine(obl_timeout_ms=120000, tactic="qfnra-nlsat")
+        eng.obl_mode = "each"
+    fn = rbgeom_fn(*args) if kind == "rbgeom" else (coordinfo_fn(*args) if kind == "coordinfo" else (curvi_fn(*args) if kind == "curvi" else rect_fn(*args)))
     res = eng.explore(fn, max_cex=3)
     res["note"] = "%s %s" % (kind, args)
 
@@ -330,6 +468,8 @@ def jobs(tier, seed):
     for qi in range(len(QUATS)):
         out.append(H.Job("rect-%d" % qi, job, "rect", qi, weight=5))
     out.append(H.Job("coordinfo-identity-ref", job, "coordinfo", 0, True, weight=10))
+    out.append(H.Job("cylindrical", job, "curvi", 2, weight=5))
+    out.append(H.Job("spherical", job, "curvi", 3, weight=5))
     for qi in (1, 2) if tier == "quick" else (1, 2, 3, 4):
         out.append(H.Job("coordinfo-%d" % qi, job, "coordinfo", qi, False, weight=10))
     return out
